@@ -1,0 +1,47 @@
+//go:build verif
+
+// Add-only export for the verification harness (/verif, property C01): drives the
+// worker's own block-building path (commitNewWork: Prepare, makeCurrent, hard-fork
+// mutations, commitUncle, commitTransactions, engine.Finalize) once, synchronously,
+// without the update()/wait() goroutines and without agents.
+package miner
+
+import (
+	"gitlab.com/aquachain/aquachain/common"
+	"gitlab.com/aquachain/aquachain/consensus"
+	"gitlab.com/aquachain/aquachain/core/types"
+	"gitlab.com/aquachain/aquachain/aqua/event"
+	"gitlab.com/aquachain/aquachain/params"
+)
+
+// VerifBuildBlock assembles the next block on top of the backend's current head from
+// the backend's pending transactions and the given possible uncles (side blocks), as a
+// mining worker does.  It returns the unsealed block, its transactions' receipts and
+// the transactions in inclusion order.
+func VerifBuildBlock(config *params.ChainConfig, engine consensus.Engine, coinbase common.Address, extra []byte,
+	aqua Backend, possibleUncles []*types.Block) (*types.Block, []*types.Receipt) {
+	w := &worker{
+		config:         config,
+		engine:         engine,
+		aqua:           aqua,
+		mux:            new(event.TypeMux),
+		chainDb:        aqua.ChainDb(),
+		recv:           make(chan *Result, resultQueueSize),
+		chain:          aqua.BlockChain(),
+		proc:           aqua.BlockChain().Validator(),
+		possibleUncles: make(map[common.Hash]*types.Block),
+		coinbase:       coinbase,
+		extra:          extra,
+		agents:         make(map[Agent]struct{}),
+		unconfirmed:    newUnconfirmedBlocks(aqua.BlockChain(), miningLogAtDepth),
+		mining:         1,
+	}
+	for _, u := range possibleUncles {
+		w.possibleUncles[u.Hash()] = u
+	}
+	w.commitNewWork()
+	if w.current == nil || w.current.Block == nil {
+		return nil, nil
+	}
+	return w.current.Block, w.current.receipts
+}
